@@ -34,6 +34,9 @@ class CirqExporter(QCircuitExporter):
 
                 def _decompose_(self, qubits):
                     for g, w, p in _selfqc.gates:
+                        if issubclass(g.__class__, gates.NopGate):
+                            continue
+
                         g_name = g.__class__.__name__
 
                         gate_mapping = {"CX": "CNOT", "CCX": "CCNOT"}
